@@ -157,7 +157,7 @@ def build_prog(prog):
         return build_q(prog)
     if fam == 'FEM':
         return build_fem(prog)
-    if fam == 'P18':
+    if fam in ('P18', 'P21'):
         BOUNDS['N'] = int(prog.get('n', 3)) + 1
     return workloads.build(prog)
 
@@ -168,7 +168,7 @@ def gen_prog(rng):
         return dict(family=rng.choice(QFAMS), n=rng.choice([1, 2, 3, 4]), m=rng.choice([1, 2, 3]), dseed=rng.randrange(1 << 30))
     if r < 0.55:
         return dict(family='FEM', mesh=rng.choice(['line', 'quad']), nelems=rng.choice([1, 2, 4, 6]), degree=rng.choice([1, 2]), dseed=rng.randrange(1 << 30))
-    p = workloads.gen_prog(rng, ['P1', 'P2', 'P3', 'P4', 'P5', 'P6', 'P7', 'P9', 'P10', 'P14', 'P15', 'P16', 'P17', 'P18', 'P19', 'P20'])
+    p = workloads.gen_prog(rng, ['P1', 'P2', 'P3', 'P4', 'P5', 'P6', 'P7', 'P9', 'P10', 'P14', 'P15', 'P16', 'P17', 'P18', 'P19', 'P20', 'P21'])
     p['bad'] = -1
     return p
 
